@@ -23,12 +23,12 @@ type xtok struct {
 
 // xvariant selects one serialisation of an abstract document.
 type xvariant struct {
-	TextMode int    // 0 literal (escaped), 1 character references, 2 CDATA, 3 literal+CDATA+literal split
-	EmptyTag bool   // childless elements as <a/>
-	Decl     int    // 0 none, 1 version only, 2 UTF-8, 3 ISO-8859-1, 4 windows-1252, 5 US-ASCII
+	TextMode int  // 0 literal (escaped), 1 character references, 2 CDATA, 3 literal+CDATA+literal split
+	EmptyTag bool // childless elements as <a/>
+	Decl     int  // 0 none, 1 version only, 2 UTF-8, 3 ISO-8859-1, 4 windows-1252, 5 US-ASCII
 	Doctype  bool
-	Misc     bool   // comment, PI and whitespace in prolog and epilog
-	Quote    byte   // attribute quote
+	Misc     bool // comment, PI and whitespace in prolog and epilog
+	Quote    byte // attribute quote
 }
 
 var c09Encodings = []string{"", "", "UTF-8", "ISO-8859-1", "windows-1252", "US-ASCII"}
@@ -617,6 +617,31 @@ func C09(c *run.Check) {
 			}
 		}
 	})
+	// hand-written documents with features outside the generated universe
+	for hi, h := range c09HandDocs() {
+		c.Evaluations.Add(1)
+		data := []byte(h.xml)
+		cur, err := readXML(data, -1, -1)
+		if err != nil {
+			report("hand-written", data, -1, -1, h.want, "well-formed document rejected: "+err.Error())
+			continue
+		}
+		if msg := c09Compare(cur, h.want, false); msg != "" {
+			report("hand-written", data, -1, -1, h.want, msg)
+			continue
+		}
+		c.Distinct(fmt.Sprint("hand", hi))
+		// every truncation point inside the document element must be an error
+		start := strings.Index(h.xml, "<"+h.root)
+		end := strings.LastIndex(h.xml, ">")
+		for k := start + 1; k < end; k++ {
+			c.Evaluations.Add(1)
+			if _, err := readXML(data[:k], -1, -1); err == nil {
+				report("truncated", data[:k], -1, -1, nil, "truncated document accepted with a nil error")
+				break
+			}
+		}
+	}
 	// undefined entity, invalid character, bad encoding
 	for _, bad := range []string{"<a>&nope;</a>", "<a>\x01</a>", "<a>\xff</a>", `<?xml version="1.0" encoding="no-such-charset"?><a/>`, "<a b=1/>", "<a><b></a></b>", "<a", "<a>", "<a/><", "<a>&#xFFFFFFFF;</a>", "<a b='1' b='2'/>x<"} {
 		c.Evaluations.Add(1)
@@ -635,6 +660,57 @@ func C09(c *run.Check) {
 	c.Set("serialisation_variants", len(variants))
 	c.Rule = fmt.Sprintf("every XML-serialisable forest with <=%d nodes over {a,b,text,comment,PI} x 8 namespace schemes (none; prefixed; default + xmlns=\"\" un-declaration; override + xml:lang; aliases + default; inner declaration; default+prefixes with un-declaration below; explicit xmlns:xml re-declaration) = %d abstract documents x %d serialisations (text as literal/char-refs/CDATA/split, empty-element tags, XML declaration absent/version/UTF-8/ISO-8859-1/windows-1252/US-ASCII with harness-transcoded bytes, DOCTYPE, prolog+epilog comments/PIs/white space, both quote kinds): parallel walk of the cursor tree against the abstract document incl. one namespace node per in-scope binding per element owned by that element; malformed side: EVERY truncation point inside markup or inside the document element, every unbalancing tag deletion / adjacent tag swap, undefined entity/invalid character/unknown charset must error; reader deviations: one short read and one I/O error at every byte offset", n, len(docs), len(variants))
 	c.Assume("white-space-only text children of the root (prolog/epilog) are not judged; truncation exactly between prolog items is not judged (encoding/xml has no notion of a missing document element)")
+}
+
+type c09Hand struct {
+	xml  string
+	root string
+	want *adoc.Doc
+}
+
+func c09HandDocs() []c09Hand {
+	mk := func(kids ...*adoc.Node) *adoc.Doc {
+		d := adoc.NewDoc()
+		d.ImplicitXML = true
+		for _, k := range kids {
+			d.Root.Add(k)
+		}
+		return d.Finish()
+	}
+	el := func(name string, attrs []*adoc.Node, kids ...*adoc.Node) *adoc.Node {
+		e := adoc.E(name, kids...)
+		for _, a := range attrs {
+			e.Add(a)
+		}
+		return e
+	}
+	var out []c09Hand
+	out = append(out, c09Hand{`<a x="l1&#10;l2&#x9;t&quot;q&apos;&amp;&lt;&gt;" y=''/>`, "a", mk(el("a", []*adoc.Node{adoc.A("x", "l1\nl2\tt\"q'&<>"), adoc.A("y", "")}))})
+	out = append(out, c09Hand{`<?xml version="1.0" encoding="UTF-8" standalone="yes"?><!DOCTYPE a [<!ELEMENT a ANY><!ATTLIST a x CDATA #IMPLIED>]><a/>`, "a", mk(adoc.E("a"))})
+	out = append(out, c09Hand{"<a>\n  <b/>\n  <b> </b>\n</a>", "a", mk(adoc.E("a", adoc.T("\n  "), adoc.E("b"), adoc.T("\n  "), adoc.E("b", adoc.T(" ")), adoc.T("\n")))})
+	out = append(out, c09Hand{"<a><![CDATA[<b>&amp;]]]]><![CDATA[>]]></a>", "a", mk(adoc.E("a", adoc.T("<b>&amp;]]>")))})
+	out = append(out, c09Hand{"<a.b-c_1><é/><x1 a-b.c='1'/></a.b-c_1>", "a.b-c_1", mk(adoc.E("a.b-c_1", adoc.E("é"), el("x1", []*adoc.Node{adoc.A("a-b.c", "1")})))})
+	out = append(out, c09Hand{`<a xml:space="preserve" xml:lang="en"><?xml-stylesheet href="s"?><?p?><?q  d  ?><!----><!-- - --></a>`, "a", mk(el("a", []*adoc.Node{adoc.ANS(adoc.XMLNS, "xml", "space", "preserve"), adoc.ANS(adoc.XMLNS, "xml", "lang", "en")},
+		adoc.P("xml-stylesheet", `href="s"`), adoc.P("p", ""), adoc.P("q", "d  "), adoc.C(""), adoc.C(" - ")))})
+	out = append(out, c09Hand{"<a>&#x1F600;&#233;&#65;&amp;amp;</a>", "a", mk(adoc.E("a", adoc.T("😀éA&amp;")))})
+	out = append(out, c09Hand{"<a>x<b>y</b>z<!--c-->w<?p?>v</a>", "a", mk(adoc.E("a", adoc.T("x"), adoc.E("b", adoc.T("y")), adoc.T("z"), adoc.C("c"), adoc.T("w"), adoc.P("p", ""), adoc.T("v")))})
+	{
+		// the same prefix bound to different namespaces on siblings; attributes of one element in two namespaces
+		a := adoc.E("a")
+		b1 := adoc.ENS("urn:1", "p", "b")
+		b1.Declare("p", "urn:1")
+		b1.Add(adoc.ANS("urn:1", "p", "k", "1"))
+		b1.Add(adoc.A("k", "2"))
+		b2 := adoc.ENS("urn:2", "p", "b")
+		b2.Declare("p", "urn:2")
+		b2.Declare("q", "urn:1")
+		b2.Add(adoc.ANS("urn:1", "q", "k", "3"))
+		b2.Add(adoc.ANS("urn:2", "p", "k", "4"))
+		a.Add(b1)
+		a.Add(b2)
+		out = append(out, c09Hand{`<a><p:b xmlns:p="urn:1" p:k="1" k="2"/><p:b xmlns:p="urn:2" xmlns:q="urn:1" q:k="3" p:k="4"/></a>`, "a", mk(a)})
+	}
+	return out
 }
 
 func c09Join(toks []xtok) string {
